@@ -1,4 +1,4 @@
-import BiotiteModel.Proofs.C02Spec
+import BiotiteModel.Proofs.C02Slice
 import BiotiteModel.Gen.C02
 /-!
 # C02 — property theorems (a bond list is a set of undirected typed bonds with safe indices)
@@ -244,13 +244,6 @@ theorem C02_refines_types (s : BL) (x y : Nat) :
 
 /-! ## Views -/
 
-theorem incident_length_le_deg (bs : List Bond) (k : Nat) : (incident bs k).length ≤ deg bs k := by
-  induction bs with
-  | nil => simp [incident]
-  | cons c cs ih =>
-    simp only [incident, List.filterMap_cons, deg_cons] at ih ⊢
-    by_cases h1 : c.1 = k <;> by_cases h2 : c.2.1 = k <;> simp [h1, h2] <;> omega
-
 /-- `get_bonds(i)` for `i ∈ [-n, n)`: never leaves its buffers (no `ub`), and returns exactly the partners of atom
 `i mod n` with their types. -/
 theorem C02_views_get_bonds (s : BL) (i : Int) (hw : WF s) (hn : s.n < 2147483648)
@@ -383,6 +376,18 @@ theorem C02_refines_getitem_any (s : BL) (ix : Idx) (sel : List Nat) (hc : Canon
       · cases hr
   rw [key]
   exact (C02_refines_getitem s sel hc hlt).1 hnd
+
+/-- Index objects are safe: whatever a mask, bool list, integer array / list or slice (any step, any bounds) selects
+lies below the atom count, and only an integer index array can select an atom twice.  A zero step is the only
+rejected slice. -/
+theorem C02_index_objects_sound (n : Nat) (ix : Idx) (sel : List Nat) (h : resolveIdx n ix = some sel) :
+    (∀ a ∈ sel, a < n) ∧ ((∀ is, ix ≠ .arr is) → sel.Nodup) :=
+  resolveIdx_sound h
+
+theorem C02_slice_sound (n : Nat) (a b c : Option Int) :
+    (c.getD 1 = 0 → sliceIndices n a b c = .error .valueError) ∧
+    (c.getD 1 ≠ 0 → ∃ sel, sliceIndices n a b c = .ok sel ∧ sel.Nodup ∧ ∀ x ∈ sel, x < n) :=
+  sliceIndices_sound n a b c
 
 /-! ## The remaining views as functions of the map -/
 
@@ -546,8 +551,8 @@ theorem C02_refines_step (st : State) (op : Op) (hw : WFS st) (hv : Valid st op)
     refine fin ⟨removeBondOrder st.cur, st.aux⟩ rfl (abs_eq rfl (fun x y => ?_)) rfl
     rw [(C02_refines_types st.cur x y).2]; rfl
   | getitem ix =>
-    obtain ⟨sel, hr, hnd, hlt⟩ := hv
-    obtain ⟨s', h, habs⟩ := C02_refines_getitem_any st.cur ix sel hc.1 hr hnd hlt
+    obtain ⟨sel, hr, hnd⟩ := hv
+    obtain ⟨s', h, habs⟩ := C02_refines_getitem_any st.cur ix sel hc.1 hr hnd (resolveIdx_sound hr).1
     have hspec : ((absState st).step (.getitem ix)).cur = (abs st.cur).select sel := by
       show (abs st.cur).select ((resolveIdx st.cur.n ix).getD []) = _
       rw [hr]; rfl
@@ -618,9 +623,9 @@ example : (applyPairs aromPairs 5, applyPairs aromPairs 9, applyPairs aromPairs 
 
 -- the acceptance domain and the reference are inhabited by non-trivial instances
 example : Valid ⟨⟨4, [(0, 1, 1), (1, 2, 2), (0, 3, 5)], 2⟩, BL.empty 0⟩ (.getitem (.arr [3, -4, 1])) :=
-  ⟨[3, 0, 1], by decide, by decide, by decide⟩
+  ⟨[3, 0, 1], by decide, by decide⟩
 example : Valid ⟨⟨4, [(0, 1, 1)], 1⟩, BL.empty 0⟩ (.getitem (.slice none none (some (-2)))) :=
-  ⟨[3, 1], by decide, by decide, by decide⟩
+  ⟨[3, 1], by decide, by decide⟩
 example : ValidRun State.init [.new false 4 true [(0, 1, 1), (1, 0, 7), (-1, 0, 5)], .add (-1) 1 9, .merge, .rmArom] :=
   ⟨⟨by decide, by decide⟩, ⟨by decide, ⟨by decide, by decide⟩, ⟨by decide, by decide⟩, by decide, by decide⟩,
    trivial, trivial, trivial⟩
